@@ -1,2 +1,510 @@
-def run(ctx, jobs_sim):
-    pass
+"""C01, code -> spec: record histories of real calls and validate them with
+spec/Trace_Lens.tla (exact dyadic arithmetic on the implementation's floats).
+
+Two sources: (a) the TLC-generated behaviours already replayed by c01.py
+(cross-checks Lens.tla against Trace_Lens.tla through the implementation),
+(b) random histories with arbitrary finite floats over every surface kind,
+tilts/decentres, mirrors, variables of every type, pickups, solves.
+"""
+import math
+import os
+import random
+from concurrent.futures import ProcessPoolExecutor
+
+import numpy as np
+
+from harness import lensops as L
+from harness import project as P
+from harness.dy import dy
+
+UNIT = {"nm": (1, 1000), "um": (1, 1), "mm": (1000, 1)}   # value * num / den = microns
+
+
+class Rec:
+    """Wraps an Optic; every call appends one event (at return, also on error)."""
+
+    def __init__(self, tid):
+        self.tid = tid
+        self.events = []
+        self.optic = L.new_optic()
+        self.calls = []     # plain-python reproduction
+        self._emit("new", {}, "")
+
+    def state(self):
+        p = P.project(self.optic)
+        if p["surf"]:
+            p["surf"][0]["npre"] = p["surf"][0]["npost"]    # object: one medium
+        d = P.to_dy(p)
+        # spec indices are 1-based
+        for q in d["pk"]:
+            q["src"] += 1
+            q["tgt"] += 1
+        for q in d["sol"]:
+            q["k"] += 1
+        return d
+
+    def _emit(self, op, args, exc, out=None, ya=None):
+        try:
+            post = self.state() if not exc else {"surf": [], "wl": [], "pk": [], "sol": []}
+        except Exception as ex:     # the projection itself failed: report as a raise of this call
+            post = {"surf": [], "wl": [], "pk": [], "sol": []}
+            exc = exc or ("projection: %s: %s" % (type(ex).__name__, ex))
+        ev = {"id": None, "tid": self.tid, "seq": len(self.events), "op": op, "args": args,
+              "exc": exc, "post": post, "out": out if out is not None else dy(0.0),
+              "ya": ya if ya is not None else []}
+        self.events.append(ev)
+
+    def _ya(self):
+        try:
+            ya, ua = self.optic.paraxial.marginal_ray()
+            return [dy(float(v)) for v in np.ravel(ya)]
+        except Exception:
+            return []
+
+    def do(self, op, fn, args, want_ya=False, out_fn=None):
+        self.calls.append((op, args.get("_py", None)))
+        a = {k: v for k, v in args.items() if k != "_py"}
+        try:
+            fn()
+        except Exception as ex:
+            self._emit(op, a, "%s: %s" % (type(ex).__name__, ex))
+            return False
+        out = None
+        if out_fn is not None:
+            try:
+                out = dy(float(np.ravel(out_fn())[0]))
+            except Exception as ex:
+                self._emit(op, a, "reading back: %s: %s" % (type(ex).__name__, ex))
+                return False
+        self._emit(op, a, "", out=out, ya=self._ya() if want_ya else None)
+        return True
+
+    # ---- the calls -------------------------------------------------------
+    def add_surface(self, kind="standard", radius=math.inf, conic=0.0, coefficients=None,
+                    thickness=0.0, material="air", is_stop=False, dx=0.0, dy_=0.0, rx=0.0, ry=0.0,
+                    extra=None):
+        from optiland.materials import IdealMaterial
+        o = self.optic
+        idx = o.surface_group.num_surfaces
+        kw = dict(index=idx, surface_type=kind, radius=radius, conic=conic, thickness=thickness,
+                  is_stop=is_stop)
+        if coefficients is not None:
+            kw["coefficients"] = coefficients
+        if isinstance(material, float):
+            kw["material"] = IdealMaterial(n=material, k=0)
+            npost = [material] * 3
+        elif material == "air":
+            kw["material"] = "air"
+            npost = [1.0] * 3
+        elif material == "mirror":
+            kw["material"] = "mirror"
+            npost = []
+        else:
+            kw["material"] = material
+            from optiland.materials import Material
+            m = Material(*material) if isinstance(material, tuple) else Material(material)
+            npost = [float(np.ravel(m.n(w))[0]) for w in P.PROBE_WL]
+        for key, val in (("dx", dx), ("dy", dy_), ("rx", rx), ("ry", ry)):
+            if val:
+                kw[key] = val
+        if extra:
+            kw.update(extra)
+        cf = [] if coefficients is None else [float(v) for v in np.asarray(coefficients, dtype=float).ravel()]
+        args = {"R": dy(radius), "k": dy(conic if not (kind == "standard" and math.isinf(radius)) else 0.0),
+                "coef": [dy(c) for c in cf], "t": dy(thickness), "dx": dy(dx), "dy": dy(dy_),
+                "rx": dy(rx), "ry": dy(ry), "stop": bool(is_stop), "refl": material == "mirror",
+                "npost": [dy(v) for v in npost], "_py": repr(kw)}
+        return self.do("add_surface", lambda: o.add_surface(**kw), args)
+
+    def set_radius(self, v, k):
+        return self.do("set_radius", lambda: self.optic.set_radius(v, k), {"k": k + 1, "v": dy(v), "_py": (v, k)})
+
+    def set_conic(self, v, k):
+        return self.do("set_conic", lambda: self.optic.set_conic(v, k), {"k": k + 1, "v": dy(v), "_py": (v, k)})
+
+    def set_thickness(self, v, k):
+        return self.do("set_thickness", lambda: self.optic.set_thickness(v, k),
+                       {"k": k + 1, "v": dy(v), "_py": (v, k)})
+
+    def set_index(self, v, k):
+        return self.do("set_index", lambda: self.optic.set_index(v, k), {"k": k + 1, "v": dy(v), "_py": (v, k)})
+
+    def set_asphere_coeff(self, v, k, idx):
+        return self.do("set_asphere_coeff", lambda: self.optic.set_asphere_coeff(v, k, idx),
+                       {"k": k + 1, "idx": idx + 1, "v": dy(v), "_py": (v, k, idx)})
+
+    def var_update(self, vtype, k, x, scaled=True, **kw):
+        from optiland.optimization.variable import Variable
+        holder = {}
+
+        def fn():
+            holder["v"] = Variable(self.optic, vtype, surface_number=k, apply_scaling=scaled, **kw)
+            holder["v"].update(x)
+        args = {"type": vtype, "k": k + 1, "x": dy(x), "scaled": bool(scaled),
+                "axis": kw.get("axis", ""), "idx": 0, "pow10": 1, "_py": (vtype, k, x, scaled, kw)}
+        if vtype == "asphere_coeff":
+            args["idx"] = kw["coeff_number"] + 1
+            args["pow10"] = 10 ** (4 + 2 * kw["coeff_number"])
+        if vtype in ("polynomial_coeff", "chebyshev_coeff"):
+            g = self.optic.surface_group.surfaces[k].geometry
+            i, j = kw["coeff_index"]
+            args["idx"] = i * np.asarray(g.c).shape[1] + j + 1
+        return self.do("var_update", fn, args, out_fn=lambda: holder["v"].value)
+
+    def add_wavelength(self, v, is_primary=False, unit="um"):
+        num, den = UNIT[unit]
+        return self.do("add_wavelength", lambda: self.optic.add_wavelength(v, is_primary=is_primary, unit=unit),
+                       {"v": dy(v), "p": bool(is_primary), "num": num, "den": den, "_py": (v, is_primary, unit)})
+
+    def pickup_add(self, src, attr, tgt, scale, off):
+        return self.do("pickup_add", lambda: self.optic.pickups.add(src, attr, tgt, scale=scale, offset=off),
+                       {"src": src + 1, "attr": attr, "tgt": tgt + 1, "scale": dy(scale), "off": dy(off),
+                        "_py": (src, attr, tgt, scale, off)}, want_ya=True)
+
+    def solve_add(self, k, h):
+        return self.do("solve_add", lambda: self.optic.solves.add("marginal_ray_height", k, h),
+                       {"k": k + 1, "h": dy(h), "_py": (k, h)}, want_ya=True)
+
+    def update(self):
+        return self.do("update", lambda: self.optic.update(), {"_py": ()}, want_ya=True)
+
+    def image_solve(self):
+        return self.do("image_solve", lambda: self.optic.image_solve(), {"_py": ()}, want_ya=True)
+
+    def scale_system(self, s):
+        return self.do("scale_system", lambda: self.optic.scale_system(s), {"v": dy(s), "_py": (s,)})
+
+    def save_load(self, how):
+        from optiland.optic import Optic
+
+        def fn():
+            if how == "dict":
+                self.optic = Optic.from_dict(self.optic.to_dict())
+            else:
+                import tempfile
+                from optiland.fileio import save_optiland_file, load_optiland_file
+                fd, path = tempfile.mkstemp(suffix=".json", dir=os.environ.get("VERIF_WORK") or None)
+                os.close(fd)
+                try:
+                    save_optiland_file(self.optic, path)
+                    self.optic = load_optiland_file(path)
+                finally:
+                    os.remove(path)
+        return self.do("save_load", fn, {"how": how, "_py": (how,)})
+
+
+# ------------------------------------------------------- grid behaviours ----
+def record_grid_behaviour(args):
+    """Replay one TLC-generated behaviour (spec units) through the recorder."""
+    tid, base, hist = args
+    r = Rec(tid)
+    sf = base["surf"]
+    for j, s in enumerate(sf):
+        if j + 1 < len(sf):
+            t = L.INF if s["z"] == -L.INF else sf[j + 1]["z"] - s["z"]
+        else:
+            t = 0
+        _grid_add(r, {"kind": s["kind"], "R": s["R"], "k": s["k"], "c1": s["c1"], "t": t,
+                      "med": "mirror" if s["refl"] else s["post"], "stop": s["stop"],
+                      "dx": s["dx"], "rx": s["rx"]})
+    for w in base["wl"]:
+        r.add_wavelength(L.u(w["v"]), is_primary=w["primary"])
+    for c in hist:
+        op, a = c["op"], c["a"]
+        if op == "add_surface":
+            _grid_add(r, a)
+        elif op == "set_radius":
+            r.set_radius(L.u(a["v"]), a["k"] - 1)
+        elif op == "set_conic":
+            r.set_conic(L.u(a["v"]), a["k"] - 1)
+        elif op == "set_thickness":
+            r.set_thickness(L.u(a["v"]), a["k"] - 1)
+        elif op == "set_index":
+            r.set_index(L.MEDIA[a["v"]], a["k"] - 1)
+        elif op == "set_asphere_coeff":
+            r.set_asphere_coeff(L.u(a["v"]), a["k"] - 1, 0)
+        elif op == "set_tilt":
+            r.var_update("tilt", a["k"] - 1, L.u(a["v"]), axis="x")
+        elif op == "set_decentre":
+            r.var_update("decenter", a["k"] - 1, L.u(a["v"]), axis="x")
+        elif op == "add_wavelength":
+            r.add_wavelength(L.u(a["v"]), is_primary=bool(a["p"]))
+        elif op == "pickup_add":
+            r.pickup_add(a["src"] - 1, a["attr"], a["tgt"] - 1, a["scale"], L.u(a["off"]))
+        elif op == "update":
+            r.update()
+        elif op == "scale_system":
+            r.scale_system(a["v"])
+        elif op == "save_load":
+            r.save_load(a["how"])
+    return r.events, r.calls
+
+
+def _grid_add(r, a):
+    med = a["med"]
+    r.add_surface(kind="standard" if a["kind"] == "std" else "even_asphere", radius=L.u(a["R"]),
+                  conic=L.u(a["k"]), coefficients=[L.u(a["c1"])] if a["kind"] == "asph" else None,
+                  thickness=L.u(a["t"]), material=med if med in ("air", "mirror") else L.MEDIA[med],
+                  is_stop=bool(a["stop"]), dx=L.u(a.get("dx", 0)), rx=L.u(a.get("rx", 0)))
+
+
+# ------------------------------------------------------- random histories ---
+GLASSES = [("N-BK7", "schott"), ("N-SF11", "schott"), ("F2", "schott")]
+
+
+def rnd_radius(rnd):
+    c = rnd.random()
+    if c < 0.15:
+        return math.inf
+    return rnd.choice([-1, 1]) * math.exp(rnd.uniform(math.log(8.0), math.log(800.0)))
+
+
+def random_history(args):
+    import contextlib
+    import io
+    with contextlib.redirect_stdout(io.StringIO()):     # the material lookup prints warnings
+        return _random_history(args)
+
+
+def _random_history(args):
+    tid, seed, nedits, features = args
+    rnd = random.Random(seed)
+    r = Rec(tid)
+    nsurf = rnd.randint(1, 12)
+    finite_obj = rnd.random() < 0.4
+    # paraxial solves are only meaningful for axially symmetric lenses: a history
+    # either has tilts/decentres or solves, not both
+    axial = rnd.random() < 0.5
+    r.add_wavelength(rnd.uniform(0.45, 0.65), is_primary=True)
+    r.add_surface(thickness=rnd.uniform(20, 500) if finite_obj else math.inf)
+    stop_at = rnd.randint(1, nsurf)
+    kinds = []
+    in_glass = False
+    for j in range(1, nsurf + 1):
+        kind = rnd.choices(["standard", "even_asphere", "polynomial", "chebyshev"], [0.6, 0.2, 0.1, 0.1])[0]
+        R = rnd_radius(rnd)
+        conic = 0.0 if rnd.random() < 0.5 else rnd.uniform(-2.0, 0.8)
+        if kind == "standard" and math.isinf(R):
+            conic = 0.0
+        coefs = None
+        extra = None
+        if kind == "even_asphere":
+            coefs = [rnd.uniform(-1e-5, 1e-5) * 10 ** (-2 * q) for q in range(rnd.randint(1, 3))]
+        elif kind == "polynomial":
+            coefs = [[0.0, rnd.uniform(-1e-3, 1e-3)], [rnd.uniform(-1e-3, 1e-3), rnd.uniform(-1e-4, 1e-4)]]
+        elif kind == "chebyshev":
+            coefs = [[0.0, rnd.uniform(-1e-3, 1e-3)], [rnd.uniform(-1e-3, 1e-3), rnd.uniform(-1e-4, 1e-4)]]
+            extra = {"norm_x": 50.0, "norm_y": 50.0}
+        m = rnd.random()
+        if m < 0.12 and j > 1:
+            material = "mirror"
+        elif in_glass and m < 0.7:
+            material = "air"
+        elif m < 0.85 or "catalogue" not in features:
+            material = round(rnd.uniform(1.3, 2.0), 4) if rnd.random() < 0.8 else rnd.uniform(1.0, 4.0)
+        else:
+            material = rnd.choice(GLASSES)
+        if material != "mirror":
+            in_glass = material != "air"
+        tilt = (not axial) and rnd.random() < 0.3
+        r.add_surface(kind=kind, radius=R, conic=conic, coefficients=coefs,
+                      thickness=rnd.uniform(0.0, 40.0) if rnd.random() < 0.9 else 0.0,
+                      material=material, is_stop=(j == stop_at) or rnd.random() < 0.05,
+                      dx=rnd.uniform(-1, 1) if tilt else 0.0, dy_=rnd.uniform(-1, 1) if tilt and rnd.random() < 0.5 else 0.0,
+                      rx=rnd.uniform(-0.2, 0.2) if tilt else 0.0, ry=rnd.uniform(-0.2, 0.2) if tilt and rnd.random() < 0.5 else 0.0,
+                      extra=extra)
+        kinds.append(kind)
+    r.add_surface()     # image surface
+    n = nsurf + 2       # code surfaces 0..n-1
+    have_solve = None
+    pk_used = {"radius": set(), "conic": set(), "thickness": set()}
+    for _ in range(nedits):
+        if any(e["exc"] for e in r.events):
+            break
+        o = r.optic
+        op = rnd.choices(["set_radius", "set_conic", "set_thickness", "set_index", "coef", "var",
+                          "add_wavelength", "pickup", "solve", "update", "image_solve"],
+                         [3, 2, 3, 2, 2, 4, 1, 2, 1, 2, 0.5])[0]
+        k = rnd.randint(1, n - 1)
+        g = o.surface_group.surfaces[k].geometry
+        gk = type(g).__name__
+        if op == "set_radius":
+            r.set_radius(rnd_radius(rnd), k)
+        elif op == "set_conic":
+            if gk != "Plane":
+                r.set_conic(rnd.uniform(-3, 2), k)
+        elif op == "set_thickness":
+            kk = rnd.randint(0 if finite_obj else 1, n - 2)
+            r.set_thickness(rnd.uniform(0.0, 60.0) if kk else rnd.uniform(10, 600), kk)
+        elif op == "set_index":
+            r.set_index(rnd.uniform(1.0, 2.5), rnd.randint(0, n - 2))
+        elif op == "coef":
+            if gk == "EvenAsphere" and len(g.c):
+                r.set_asphere_coeff(rnd.uniform(-1e-6, 1e-6), k, rnd.randrange(len(g.c)))
+        elif op == "var":
+            vt = rnd.choice(["radius", "conic", "thickness", "index", "asphere_coeff", "tilt", "decenter",
+                             "polynomial_coeff", "chebyshev_coeff"])
+            scaled = rnd.random() < 0.6
+            if vt == "radius":
+                x = rnd.uniform(-3, 3) if scaled else rnd_radius(rnd)
+                if math.isinf(x):
+                    x = 55.5
+                r.var_update("radius", k, x, scaled)
+            elif vt == "conic" and gk != "Plane":
+                r.var_update("conic", k, rnd.uniform(-2, 1), scaled)
+            elif vt == "thickness":
+                kk = rnd.randint(1, n - 2)
+                r.var_update("thickness", kk, rnd.uniform(-0.9, 3) if scaled else rnd.uniform(0, 40), scaled)
+            elif vt == "index":
+                kk = rnd.randint(1, n - 2)
+                r.var_update("index", kk, rnd.uniform(-0.4, 0.5) if scaled else rnd.uniform(1.1, 2.0), scaled,
+                             wavelength=0.55)
+            elif vt == "asphere_coeff" and gk == "EvenAsphere" and len(g.c):
+                q = rnd.randrange(len(g.c))
+                r.var_update("asphere_coeff", k, rnd.uniform(-1, 1) if scaled else rnd.uniform(-1e-6, 1e-6),
+                             scaled, coeff_number=q)
+            elif vt in ("tilt", "decenter") and not axial:
+                r.var_update(vt, k, rnd.uniform(-0.3, 0.3), scaled, axis=rnd.choice("xy"))
+            elif vt == "polynomial_coeff" and gk == "PolynomialGeometry":
+                r.var_update(vt, k, rnd.uniform(-1e-3, 1e-3), scaled, coeff_index=(rnd.randint(0, 1), rnd.randint(0, 1)))
+            elif vt == "chebyshev_coeff" and gk == "ChebyshevPolynomialGeometry":
+                r.var_update(vt, k, rnd.uniform(-1e-3, 1e-3), scaled, coeff_index=(rnd.randint(0, 1), rnd.randint(0, 1)))
+        elif op == "add_wavelength":
+            unit = rnd.choice(["um", "nm", "mm"])
+            v = rnd.uniform(0.4, 0.8)
+            r.add_wavelength({"um": v, "nm": v * 1000, "mm": v / 1000}[unit], rnd.random() < 0.4, unit)
+        elif op == "pickup" and len(o.pickups) < 3 and "pickups" in features:
+            attr = rnd.choice(["radius", "conic", "thickness"])
+            if attr == "thickness":
+                cands = [j for j in range(1, n - 1) if j not in pk_used[attr]
+                         and (have_solve is None or j != have_solve - 1)]
+            else:
+                cands = [j for j in range(1, n) if j not in pk_used[attr]
+                         and type(o.surface_group.surfaces[j].geometry).__name__ != "Plane"
+                         and (attr != "radius" or math.isfinite(P.f(o.surface_group.radii[j])))]
+            if len(cands) >= 2:
+                src, tgt = rnd.sample(cands, 2)
+                scale = rnd.choice([1.0, -1.0, rnd.uniform(-2, 2)])
+                off = rnd.choice([0.0, rnd.uniform(0, 5)])
+                if attr == "radius" and abs(scale * P.f(o.surface_group.radii[src]) + off) < 1.0:
+                    continue
+                if attr == "thickness" and scale * P.f(o.surface_group.get_thickness(src)) + off < 0:
+                    scale, off = abs(scale), abs(off)
+                pk_used[attr].update([src, tgt])
+                r.pickup_add(src, attr, tgt, scale, off)
+        elif op == "solve" and axial and have_solve is None and "solves" in features and n >= 3:
+            ks = rnd.randint(2, n - 1)
+            try:
+                ya, ua = o.paraxial.marginal_ray()
+                u_in = float(np.ravel(ua)[ks - 1])
+                ok = np.all(np.isfinite(ya)) and abs(u_in) > 1e-3 and abs(float(np.ravel(ua)[ks])) > 1e-3
+            except Exception:
+                ok = False
+            if ok and (ks - 1) not in pk_used["thickness"]:
+                have_solve = ks
+                pk_used["thickness"].add(ks - 1)
+                r.solve_add(ks, rnd.choice([0.0, rnd.uniform(-2, 2)]))
+        elif op == "update" and (len(o.pickups) or len(o.solves)):
+            r.update()
+        elif op == "image_solve" and axial and "solves" in features and have_solve is None:
+            try:
+                ya, ua = o.paraxial.marginal_ray()
+                ok = np.all(np.isfinite(ya)) and abs(float(np.ravel(ua)[-1])) > 1e-3
+            except Exception:
+                ok = False
+            if ok:
+                r.image_solve()
+    return r.events, r.calls
+
+
+# ---------------------------------------------------------------- driver ----
+def classify(ev, clause, events):
+    """Input-class attributes for known-finding matching."""
+    cls = {"op": ev["op"]}
+    if clause == "solves_hold":
+        post = ev["post"]
+        stops = [j + 1 for j, sf in enumerate(post["surf"]) if sf["stop"]]
+        cls["finite_object"] = bool(post["surf"]) and post["surf"][0]["z"]["k"] == "fin"
+        cls["stop_at_or_after_solve"] = bool(stops) and any(stops[0] >= q["k"] for q in post["sol"])
+    if ev["op"] == "var_update":
+        cls["type"] = ev["args"]["type"]
+    return cls
+
+
+def run(ctx, jobs_sim, features=("pickups", "solves", "catalogue")):
+    quick = ctx.tier == "quick"
+    os.environ["VERIF_WORK"] = ctx.work
+    ngrid = min(len(jobs_sim), 150 if quick else 1500)
+    nrand = 250 if quick else 4000
+    tasks_g = [(i, j[0], j[1]) for i, j in enumerate(jobs_sim[:ngrid])]
+    tasks_r = [(10000 + i, ctx.seed * 1000003 + i, 12 if quick else 25, features) for i in range(nrand)]
+    events, traces = [], {}
+    with ProcessPoolExecutor(max_workers=16) as ex:
+        for evs, calls in ex.map(record_grid_behaviour, tasks_g, chunksize=8):
+            events += evs
+            traces[evs[0]["tid"]] = calls
+        for evs, calls in ex.map(random_history, tasks_r, chunksize=8):
+            events += evs
+            traces[evs[0]["tid"]] = calls
+    # keep traces contiguous within a shard: shard by trace id
+    for i, e in enumerate(events):
+        e["id"] = i
+    verdicts = validate_by_trace(ctx, "Trace_Lens", events)
+    bad = 0
+    opcount = {}
+    for e in events:
+        opcount[e["op"]] = opcount.get(e["op"], 0) + 1
+        for clause in verdicts[e["id"]]:
+            bad += 1
+            what = "%s (trace %d, call %d): clause %s fails%s" % (
+                e["op"], e["tid"], e["seq"], clause, (" - " + e["exc"]) if e["exc"] else "")
+            ctx.report(clause, classify(e, clause, events), what,
+                       {"calls": traces[e["tid"]][:e["seq"]], "event_args": e["args"]})
+    ctx.extra["trace_events_by_op"] = opcount
+    ctx.extra["trace_histories"] = len(traces)
+    ctx.sample({"random_history_calls": traces[10000][:10]})
+
+
+def validate_by_trace(ctx, module, events, shards=16):
+    """Shard so that every trace stays in one shard, in order."""
+    tids = sorted({e["tid"] for e in events})
+    shard_of = {t: i % shards for i, t in enumerate(tids)}
+    groups = [[] for _ in range(shards)]
+    for e in events:
+        groups[shard_of[e["tid"]]].append(e)
+    groups = [g for g in groups if g]
+    verdicts = {}
+    from harness import tlc as T
+    import json
+    from concurrent.futures import ThreadPoolExecutor
+
+    def one(ig):
+        i, g = ig
+        f = os.path.join(ctx.work, "trace_%s_%d.json" % (module, i))
+        with open(f, "w") as fh:
+            json.dump(g, fh)
+        r = T.run_tlc(module, module + ".cfg", ctx.work, workers=1, env={"TRACE_FILE": f}, timeout=1500)
+        os.remove(f)
+        return r, len(g)
+    with ThreadPoolExecutor(max_workers=16) as ex:
+        results = list(ex.map(one, enumerate(groups)))
+    states = gen = 0
+    for r, n in results:
+        if not r.ok:
+            raise T.MachineryError("trace validation failed (%s):\n%s" % (module, "\n".join(r.out.splitlines()[-30:])))
+        for rec in r.prints("V"):
+            verdicts[rec[1]] = sorted(rec[2])
+        done = r.prints("DONE")
+        if not done or done[-1][1] != n:
+            raise T.MachineryError("trace spec consumed %r of %d events" % (done, n))
+        states += r.distinct
+        gen += r.generated
+    ctx.states += states
+    ctx.transitions += gen
+    ctx.traces += len(tids)
+    ctx.models.append({"module": module, "events": len(events), "distinct": states, "generated": gen,
+                       "jvms": len(groups), "ok": True})
+    miss = [e["id"] for e in events if e["id"] not in verdicts]
+    if miss:
+        raise T.MachineryError("no verdict for %d events" % len(miss))
+    return verdicts
